@@ -28,8 +28,12 @@ type Case struct {
 	// History: the inputs parsed earlier with the SAME grammar object (a grammar is built once and used for
 	// every input of the enumeration); replayed first, in order, so that state kept in the parser graph is reproduced
 	History []string `json:"inputs_parsed_before_with_this_grammar,omitempty"`
-	Input   string   `json:"input"`
-	Note    string   `json:"note,omitempty"`
+	// Tokens: the terminals were built with token names that collide with the library's own (impl.Tokens)
+	Tokens bool `json:"terminals_named_like_library_tokens,omitempty"`
+	// Percent: C06's variant in which terminal a is '%' and the file name contains a '%'
+	Percent bool   `json:"percent_sign_in_terminal_and_file_name,omitempty"`
+	Input   string `json:"input"`
+	Note    string `json:"note,omitempty"`
 }
 
 func (c Case) String() string {
@@ -40,6 +44,10 @@ func (c Case) String() string {
 }
 
 var ab = []byte{'a', 'b'}
+
+// CollidingTokens names the terminals a and b like the library names the empty match and a sequence. ("EOF" is not
+// used: parser.EOF is an exported constant by which the sequence recognises the end-of-input node, a reserved name.)
+var CollidingTokens = map[byte]string{'a': "EMPTY", 'b': "SEQ"}
 
 // spaceSpec names a grammar space and the input length bound used with it.
 type spaceSpec struct {
@@ -169,6 +177,10 @@ func parseCase(raw json.RawMessage) (Case, *gram.Grammar, error) {
 	}
 	g, err := gram.Parse(c.Grammar)
 	impl.Placement = c.Placement
+	impl.Tokens = nil
+	if c.Tokens {
+		impl.Tokens = CollidingTokens
+	}
 	impl.BurnTo(c.Prior) // reproduce the cache indexes the grammar had when the case was found
 	return c, g, err
 }
